@@ -22,37 +22,52 @@ pub const PROPERTY: &str = "C13";
 /// attribution is counterfactual — a violation is attributed to a finding only if the same trace
 /// with that trigger neutralised shows no violation at all).
 const FINDINGS: &[&str] = &[
-    // narrow neutralisations first, the broad ones (which change what later events do) last
-    "C13-rollback-below-first-block",
+    // narrow neutralisations first, the broad one (which changes what later events do) last
     "C13-signable-root-depends-on-import-depth",
-    "C13-rollback-to-scan-start-ignored",
     "C13-no-rescan-when-target-not-above-stored",
-    "C13-target-above-tip-partial-range-root",
     "C13-prune-before-legacy-roots",
-    "C13-stale-resume-point-after-failed-import",
     "C13-chunked-import-skips-range-roots",
 ];
 
 fn neutralise(cfg: &Config, finding: &str) -> Option<Config> {
     let mut c = cfg.clone();
     match finding {
-        "C13-rollback-below-first-block" if !cfg.neut_below_first => c.neut_below_first = true,
         "C13-signable-root-depends-on-import-depth" if !cfg.neut_sign_depth => c.neut_sign_depth = true,
-        "C13-stale-resume-point-after-failed-import" if !cfg.neut_restart_after_failure => {
-            c.neut_restart_after_failure = true
-        }
-        "C13-target-above-tip-partial-range-root" if !cfg.clamp_targets => c.clamp_targets = true,
+        "C13-no-rescan-when-target-not-above-stored" if !cfg.neut_noop_on_stale => c.neut_noop_on_stale = true,
+        "C13-prune-before-legacy-roots" if !cfg.neut_prune_before_legacy => c.neut_prune_before_legacy = true,
         "C13-chunked-import-skips-range-roots" if cfg.nodes.iter().any(|n| n.chunk.is_some()) => {
             for n in c.nodes.iter_mut() {
                 n.chunk = None;
             }
         }
-        "C13-rollback-to-scan-start-ignored" if !cfg.neut_back_to_scan_start => c.neut_back_to_scan_start = true,
-        "C13-no-rescan-when-target-not-above-stored" if !cfg.neut_noop_on_stale => c.neut_noop_on_stale = true,
-        "C13-prune-before-legacy-roots" if !cfg.neut_prune_before_legacy => c.neut_prune_before_legacy = true,
         _ => return None,
     }
     Some(c)
+}
+
+/// Non-judged observation (never a violation, never a finding): what would have happened had the
+/// nodes whose import returned an error kept running instead of being restarted (the importer's
+/// in-memory `last_polled_point` and the chain-sync connection then survive the failed import and
+/// can lag behind / run ahead of the store). Same trace, every known-finding trigger neutralised.
+fn observe_without_restart(report: &mut RunReport, cfg: &Config, trace: &[Event]) {
+    let mut c = cfg.clone();
+    c.shadow_no_restart_after_failure = true;
+    c.neut_sign_depth = true;
+    c.neut_noop_on_stale = true;
+    c.neut_prune_before_legacy = true;
+    for n in c.nodes.iter_mut() {
+        n.chunk = None;
+    }
+    let mut base = c.clone();
+    base.shadow_no_restart_after_failure = false;
+    report.hit("observation_stale_resume_point_shadow_runs");
+    if sim::execute(&base, trace, true).violation.is_some() {
+        return; // the restarted variant is not clean either: nothing to compare with
+    }
+    if let Some(v) = sim::execute(&c, trace, true).violation {
+        report.hit("observation_stale_resume_point_diverged");
+        report.hit(&format!("observation_stale_resume_point_{}", v.clause.replace('-', "_")));
+    }
 }
 
 /// Execute the trace and attribute what it shows. A violation is attributed to a finding iff the
@@ -194,6 +209,12 @@ impl ImportEngine {
         if ctx.want_sample {
             report.sample = Some(json!({"run": ctx.run, "config": cfg, "trace": trace, "log": out.log}));
         }
+        // shadow observation in a fifth of the clean runs in which an import failed without a crash
+        let observe = rng.chance(0.2);
+        let failed_imports = out.counters.get("sim_restarts_after_failed_import").copied().unwrap_or(0);
+        if observe && failed_imports > 0 && out.violation.is_none() {
+            observe_without_restart(&mut report, &cfg, &trace);
+        }
         handle_violation(&mut report, &cfg, &trace, out);
         report
     }
@@ -204,11 +225,7 @@ impl ImportEngine {
         let mut report = RunReport::new(ctx.run);
         let (mut cfg, mut params) = sim::gen_config(rng);
         cfg.agency = false;
-        cfg.neut_below_first = true;
         cfg.neut_sign_depth = true;
-        cfg.neut_restart_after_failure = rng.chance(0.7);
-        cfg.clamp_targets = true;
-        cfg.neut_back_to_scan_start = true;
         cfg.neut_noop_on_stale = true;
         cfg.neut_prune_before_legacy = rng.chance(0.85);
         params = GenParams {
@@ -332,7 +349,7 @@ impl Engine for ImportEngine {
                 Tier::Thorough => 50_000,
             },
             level: "exploration",
-            rule: "one run = one seeded history of 10-30 events (grow / fork / import / sign / restart / prune, with DB crash, transient DB error, reader error and fork-during-import attached to imports) over 1-2 nodes plus a quiescence phase; every 25th run is a fault-enumeration run (a short fault-free history, then every hooked DB statement of one of its imports tried as crash point and as transient error, every chain-sync call as reader error; large imports sampled). A run is non-trivial iff at least one successful import was checked against the oracle AND a roll-back was delivered to a node with a non-empty store AND, in fault-injecting configurations, at least one fault fired inside an import. distinct = distinct hash of the sequence of (event kind, node, outcome ok/err, scanning/no-op/stale, fault kind fired, fork during import).".into(),
+            rule: "one run = one seeded history of 10-30 events (grow / fork / import / sign / restart / prune, with DB crash, transient DB error, reader error and fork-during-import attached to imports) over 1-2 nodes plus a quiescence phase; a node whose import returned an error is restarted at once (the failure is a process stop); every 25th run is a fault-enumeration run (a short fault-free history, then every hooked DB statement of one of its imports tried as crash point and as transient error, every chain-sync call as reader error; large imports sampled). A run is non-trivial iff at least one successful import was checked against the oracle AND a roll-back was delivered to a node with a non-empty store AND, in fault-injecting configurations, at least one fault fired inside an import. distinct = distinct hash of the sequence of (event kind, node, outcome ok/err, scanning/no-op/stale, fault kind fired, fork during import). Counters observation_stale_resume_point_* are a non-judged shadow re-execution (same trace, failed nodes NOT restarted) of a fifth of the clean runs with a failed import.".into(),
             assumptions: vec![
                 "the Cardano node behaves as the chain-sync model S1-S6 in src/model.rs (PallasChainReader itself is not executed)".into(),
                 "a chain switch never goes to a shorter chain (the block number of the tip never decreases)".into(),
@@ -340,7 +357,8 @@ impl Engine for ImportEngine {
                 "a first block sitting at slot 0 is never replaced by a fork (ChainScannedBlocks::RollBackward(SlotNumber) cannot tell origin from slot 0)".into(),
                 "legacy CardanoTransactions beacons are block-range aligned (15k-1), as produced by CardanoTransactionsSigningConfig::compute_block_number_to_be_signed".into(),
                 "ChainDataImporterByChunk.import(0) on an empty store is a no-op (block number 0 arrives with the first target >= 1): observed and counted, not judged".into(),
-                "known-finding triggers are neutralised in the harness in ~85-90 % of the runs each and left active in the others, where a violation must be attributed counterfactually or fails the check (REPORT.md)".into(),
+                "an import that fails (transient DB error, reader error) is not retried by the same process: the harness restarts the node before anything else happens to it (the statement's histories contain process restarts and crash points, not in-process retries)".into(),
+                "the triggers of the four known findings (REPORT.md) are neutralised in the harness in ~85-90 % of the runs each and left active in the others, where a violation must be attributed counterfactually or fails the check".into(),
                 "durability below SQLite's commit is out of scope (a crash is a process death at a statement boundary)".into(),
             ],
             real_components: vec![
